@@ -690,6 +690,31 @@ func (fx *FuncCtx) specCall(env *specEnv, x *ast.CallExpr) sval {
 	case "written":
 		return sval{env.cur.written, nil}
 	}
+	switch name {
+	case "math.Pow", "math.Log", "math.Exp", "math.Log2", "math.Log1p", "math.Expm1", "math.Cbrt", "math.Sin", "math.Cos", "math.Hypot", "math.Copysign":
+		// the uninterpreted function the code model uses for the same library call
+		var args []Term
+		var sorts []Sort
+		for i := range x.Args {
+			t := argT(i)
+			if t.Sort == SInt {
+				fx.unsupportedf("spec: %s needs float arguments", name)
+			}
+			args = append(args, t)
+			sorts = append(sorts, t.Sort)
+		}
+		fn := "math_" + strings.TrimPrefix(name, "math.")
+		fx.declFun(fn, sorts, sorts[0])
+		return sval{app(sorts[0], fn, args...), types.Typ[types.Float64]}
+	}
+	if name == "math.Signbit" {
+		t := argT(0)
+		if t.Sort == SInt {
+			fx.unsupportedf("spec: math.Signbit needs a float argument")
+		}
+		fx.declFun("math_Signbit", []Sort{t.Sort}, SBool)
+		return sval{app(SBool, "math_Signbit", t), nil}
+	}
 	// user spec function
 	if sp := fx.eng.lookupSpec(fx, env, name); sp != nil {
 		return fx.applySpec(env, sp, x)
